@@ -307,7 +307,7 @@ func IsRRset(rrset []RR) bool {
 	baseH := rrset[0].Header()
 	for _, rr := range rrset[1:] {
 		curH := rr.Header()
-		if curH.Rrtype != baseH.Rrtype || curH.Class != baseH.Class || curH.Name != baseH.Name {
+		if curH.Rrtype != baseH.Rrtype || curH.Class != baseH.Class || !equal(curH.Name, baseH.Name) {
 			// Mismatch between the records, so this is not a valid rrset for
 			// signing/verifying
 			return false
